@@ -1,0 +1,30 @@
+//go:build verif
+
+// Contracts for the contract-based verification in /verif (comment-only file).
+
+package epic
+
+//@ # ---- C13. Instants are Unix nanoseconds (time model A8); a tick of the EPIC timestamp is 21 us.
+//@ func VerifyTimestamp
+//@   props C13
+//@   let sender = timestamp.ext+(int64(epicTS)+1)*21000
+//@   modifies nothing
+//@   # fresh: not more than the clock skew (1 s) in the future, not older than lifetime (2 s) + skew (1 s)
+//@   ensures (result == nil) == (sender <= now.ext+1000000000 && now.ext <= sender+3000000000)
+
+//@ # the EPIC MAC is an uninterpreted function of exactly the inputs the property names:
+//@ # the hop's full MAC (authenticator), packet id, source ISD-AS and host address, payload length, segment timestamp
+//@ spec func epicMac(auth []byte, pktTs uint32, pktCtr uint32, srcIA uint64, srcType uint8, srcAddr []byte, payloadLen uint16, ts uint32, i int) uint8 uninterpreted
+
+//@ func CalcMac
+//@   trusted
+//@   requires s != nil
+//@   modifies arr(buffer)
+//@   ensures result1 == nil ==> len(result0) == 4 && result0[0] == epicMac(auth, pktID.Timestamp, pktID.Counter, uint64(s.SrcIA), uint8(s.SrcAddrType), s.RawSrcAddr, s.PayloadLen, timestamp, 0) && result0[1] == epicMac(auth, pktID.Timestamp, pktID.Counter, uint64(s.SrcIA), uint8(s.SrcAddrType), s.RawSrcAddr, s.PayloadLen, timestamp, 1) && result0[2] == epicMac(auth, pktID.Timestamp, pktID.Counter, uint64(s.SrcIA), uint8(s.SrcAddrType), s.RawSrcAddr, s.PayloadLen, timestamp, 2) && result0[3] == epicMac(auth, pktID.Timestamp, pktID.Counter, uint64(s.SrcIA), uint8(s.SrcAddrType), s.RawSrcAddr, s.PayloadLen, timestamp, 3)
+
+//@ func VerifyHVF
+//@   props C13
+//@   requires !sameArray(auth, buffer) && (s != nil ==> !sameArray(s.RawSrcAddr, buffer)) && !sameArray(hvf, buffer)
+//@   modifies arr(buffer)
+//@   ensures result == nil ==> s != nil && len(auth) == 16 && len(hvf) == 4
+//@   ensures result == nil ==> hvf[0] == epicMac(auth, pktID.Timestamp, pktID.Counter, uint64(s.SrcIA), uint8(s.SrcAddrType), s.RawSrcAddr, s.PayloadLen, timestamp, 0) && hvf[1] == epicMac(auth, pktID.Timestamp, pktID.Counter, uint64(s.SrcIA), uint8(s.SrcAddrType), s.RawSrcAddr, s.PayloadLen, timestamp, 1) && hvf[2] == epicMac(auth, pktID.Timestamp, pktID.Counter, uint64(s.SrcIA), uint8(s.SrcAddrType), s.RawSrcAddr, s.PayloadLen, timestamp, 2) && hvf[3] == epicMac(auth, pktID.Timestamp, pktID.Counter, uint64(s.SrcIA), uint8(s.SrcAddrType), s.RawSrcAddr, s.PayloadLen, timestamp, 3)
